@@ -574,7 +574,7 @@ func main() {
 			}
 		}
 	}
-	n := f.Count(45, 6000)
+	n := f.Count(36, 5000)
 	for i := 0; i < n; i++ {
 		r := gen.Fork(f.Seed, i)
 		fams := genFamilies(r)
